@@ -22,6 +22,7 @@ guards of Execute/Query/Request before raft.Apply, where strongReadTerm is store
 import RqModel.Model.Linz
 import RqModel.Model.ReadIndex
 import RqModel.Lemmas.LinRead
+import RqModel.Lemmas.Linz
 import RqModel.Gen.ReadPath
 import RqModel.Expect.ReadPath
 namespace C02
@@ -257,6 +258,139 @@ theorem reads_monotone (E : Exec) (sem : RaftSem E) (r1 r2 : LinReadRun) (h1 : r
   · have := lin_read_sees_committed E sem r2 h2 _ _ _ _ hc (by omega)
     omega
 
+/-! ## 3b. every history of the model is linearizable -/
+
+theorem idxOf_cons_ne {α} [DecidableEq α] (x a : α) (l : List α) (h : x ≠ a) :
+    (x :: l).idxOf a = l.idxOf a + 1 := by
+  have : (x == a) = false := by simpa using h
+  simp [List.idxOf_cons, this]
+
+theorem idxOf_cons_self {α} [DecidableEq α] (x : α) (l : List α) : (x :: l).idxOf x = 0 := by
+  simp [List.idxOf_cons]
+
+theorem idxOf_sorted {α} [DecidableEq α] (l : List α) (f : α → Nat)
+    (hs : l.Pairwise (fun a b => f a < f b)) (a b : α) (ha : a ∈ l) (hb : b ∈ l) (hlt : f a < f b) :
+    l.idxOf a < l.idxOf b := by
+  induction l with
+  | nil => simp at ha
+  | cons x l ih =>
+    rw [List.pairwise_cons] at hs
+    by_cases hax : a = x
+    · subst hax
+      by_cases hbx : b = a
+      · subst hbx; omega
+      · rw [idxOf_cons_self, idxOf_cons_ne _ _ _ (Ne.symm hbx)]; omega
+    · have ha' : a ∈ l := by simpa [hax] using ha
+      by_cases hbx : b = x
+      · subst hbx
+        have := hs.1 a ha'
+        omega
+      · have hb' : b ∈ l := by simpa [hbx] using hb
+        have := ih hs.2 ha' hb'
+        rw [idxOf_cons_ne _ _ _ (Ne.symm hax), idxOf_cons_ne _ _ _ (Ne.symm hbx)]
+        omega
+
+theorem idxOf_getElem_nodup {α} [DecidableEq α] (l : List α) (hn : l.Nodup) (j : Nat) (hj : j < l.length) :
+    l.idxOf l[j] = j := by
+  induction l generalizing j with
+  | nil => simp at hj
+  | cons x l ih =>
+    rw [List.nodup_cons] at hn
+    cases j with
+    | zero => simp [List.idxOf_cons]
+    | succ j =>
+      have hj' : j < l.length := by simpa using hj
+      have hne : x ≠ l[j] := fun e => hn.1 (e ▸ List.getElem_mem hj')
+      simp only [List.getElem_cons_succ]
+      rw [idxOf_cons_ne _ _ _ hne, ih hn.2 j hj']
+
+theorem nodup_of_sorted {α} (l : List α) (f : α → Nat) (hs : l.Pairwise (fun a b => f a < f b)) : l.Nodup := by
+  refine hs.imp ?_
+  intro a b h e; subst e; omega
+
+/-- **Every history of the model is linearizable**: a client history that arises from an
+execution of an abstract cluster satisfying `RaftSem`, through runs of the rqlite
+protocol (`LogOpRun.Ok`, `LinReadRun.Ok`), with the FSM applying the log in order, has a
+linearization. Writes with unknown outcome are linearized iff they were committed. -/
+theorem history_linearizable (E : Exec) (sem : RaftSem E) (h : History) (m : ModelHistory E h) :
+    Linearizable h := by
+  classical
+  let rk : Nat → Nat := fun x => if x ∈ m.logOps then 2 * m.logOps.idxOf x + 2 else 2 * m.pos x + 1
+  have hnd : m.logOps.Nodup := nodup_of_sorted _ _ m.log_sorted
+  have hranked : Ranked rk m.reads 0 m.logOps := by
+    constructor
+    · intro q x hx
+      obtain ⟨_, _, _, hp, _, hnl⟩ := m.read_ok q x hx
+      simp [rk, hnl, hp]
+    · intro j hj
+      have hg : m.logOps.getD j 0 = m.logOps[j] := by simp [List.getD, hj]
+      have hmem : m.logOps[j] ∈ m.logOps := List.getElem_mem hj
+      simp only [rk, hg, hmem, if_true, Nat.zero_add]
+      rw [idxOf_getElem_nodup _ hnd j hj]
+  -- position of a log operation
+  have hget : ∀ a ∈ m.logOps, m.logOps.idxOf a < m.logOps.length ∧ m.logOps.getD (m.logOps.idxOf a) 0 = a := by
+    intro a ha
+    have hlt := List.idxOf_lt_length_iff.2 ha
+    refine ⟨hlt, ?_⟩
+    simp [List.getD, hlt]
+  apply single_log_linearizable h m.logOps m.reads rk hranked m.reads_nodup m.in_range m.complete
+    m.read_val m.log_val
+  · -- real time never contradicts the ranks
+    intro a b ha hb hpre
+    obtain ⟨t, hta, hlt⟩ := hpre
+    rcases ha with ha | ⟨qa, ha⟩ <;> rcases hb with hb | ⟨qb, hb⟩
+    · -- log, log
+      obtain ⟨oka, _, hra⟩ := m.log_ok a ha
+      obtain ⟨okb, hib, _⟩ := m.log_ok b hb
+      have := strong_read_linearizable E sem _ _ oka okb (by rw [← hra t hta, ← hib]; exact hlt)
+      have := idxOf_sorted m.logOps (fun x => (m.logRun x).apply.index) m.log_sorted a b ha hb this
+      simp only [rk, ha, hb, if_true]; omega
+    · -- log, read
+      obtain ⟨oka, _, hra⟩ := m.log_ok a ha
+      obtain ⟨okb, hib, _, hp, hq, hnl⟩ := m.read_ok qb b hb
+      have h1 := lin_read_sees_acked E sem _ okb _ oka (by rw [← hra t hta, ← hib]; exact hlt)
+      have h2 := m.read_wait qb b hb a ha h1
+      obtain ⟨hl, hg⟩ := hget a ha
+      have := (m.read_pos qb b hb _ hl).1 (by rw [hg]; exact h2)
+      simp only [rk, ha, hnl, if_true, if_false, hp]; omega
+    · -- read, log
+      obtain ⟨oka, _, hra, hp, hq, hnl⟩ := m.read_ok qa a ha
+      obtain ⟨okb, hib, _⟩ := m.log_ok b hb
+      have hresp : t = (m.linRun a).tResp := by rw [hra] at hta; cases hta; rfl
+      have h1 := later_write_not_observed E sem _ oka _ okb (by rw [← hresp, ← hib]; exact hlt)
+      obtain ⟨hl, hg⟩ := hget b hb
+      have hn : ¬ m.logOps.idxOf b < qa := by
+        intro hc
+        have := (m.read_pos qa a ha _ hl).2 hc
+        rw [hg] at this; omega
+      simp only [rk, hb, hnl, if_true, if_false, hp]; omega
+    · -- read, read
+      obtain ⟨oka, _, hra, hpa, hqa, hnla⟩ := m.read_ok qa a ha
+      obtain ⟨okb, hib, _, hpb, hqb, hnlb⟩ := m.read_ok qb b hb
+      have hresp : t = (m.linRun a).tResp := by rw [hra] at hta; cases hta; rfl
+      have h1 := reads_monotone E sem _ _ oka okb (by rw [← hresp, ← hib]; exact hlt)
+      have hle : qa ≤ qb := by
+        apply Nat.le_of_not_lt
+        intro hc
+        -- the qb-th log operation is seen by a, hence (wait) by b
+        have hl : qb < m.logOps.length := by omega
+        have ha1 := (m.read_pos qa a ha qb hl).2 hc
+        have hmem : m.logOps.getD qb 0 ∈ m.logOps := by
+          have : m.logOps.getD qb 0 = m.logOps[qb] := by simp [List.getD, hl]
+          rw [this]; exact List.getElem_mem hl
+        have hb1 := m.read_wait qb b hb _ hmem (by omega)
+        have := (m.read_pos qb b hb qb hl).1 hb1
+        omega
+      simp only [rk, hnla, hnlb, if_false, hpa, hpb]; omega
+  · -- inside a block: invocation order respects real time
+    intro q
+    refine (m.reads_sorted q).imp ?_
+    intro x y hxy hpre
+    obtain ⟨t, ht, hlt⟩ := hpre
+    have := m.inv_lt_resp y t ht
+    omega
+
+
 /-! ## 4. tie to the source: regenerated facts -/
 
 set_option maxRecDepth 16384
@@ -320,7 +454,7 @@ def demoRead : LinReadRun :=
   { node := 0, tInv := 6, tReadTerm := 6, readTerm := 1, steps := [7, 7, 7, 8, 9, 11, 11, 11],
     stored := some demoStrong, tVerifyEnd := 10, readIndex := 2, tRead := 12, observed := 2, tResp := 13 }
 
-example : RaftSem demoExec := by
+theorem demoSem : RaftSem demoExec := by
   refine ⟨?_, ?_, ?_, ?_, ?_, ?_, ?_, ?_, ?_, ?_, ?_⟩
   · intro n t t' _; simp [demoExec]
   · intro n t t' h; simp only [demoExec]; split <;> split <;> omega
@@ -366,5 +500,91 @@ example : demoRead.Ok demoExec := by
   · simp [demoRead, demoExec, LinReadRun.at, idx_commit]
   · exact ⟨rfl, by decide⟩
   · simp [demoRead, demoExec]
+
+/-- the demo execution of C02 as a client history: the strong read (no row for key 1),
+then the linearizable read -/
+def demoHistory : History := [⟨1, some 5, .read 1 none⟩, ⟨6, some 13, .read 1 none⟩]
+
+def demoModel : ModelHistory demoExec demoHistory where
+  logOps := [0]
+  reads := fun q => if q = 1 then [1] else []
+  pos := fun _ => 1
+  logRun := fun _ => demoStrong
+  linRun := fun _ => demoRead
+  log_ok := by
+    intro i hi
+    simp only [List.mem_singleton] at hi
+    subst hi
+    refine ⟨⟨by decide, by decide, by decide, rfl, rfl⟩, rfl, ?_⟩
+    intro t ht
+    simp [demoHistory, opAt] at ht
+    simp [demoStrong, ← ht]
+  log_sorted := by simp
+  read_ok := by
+    intro q r hr
+    by_cases hq : q = 1
+    · subst hq
+      simp only [if_true, List.mem_singleton] at hr
+      subst hr
+      refine ⟨?_, rfl, rfl, rfl, by decide, by decide⟩
+      refine ⟨by decide, by decide, by decide, by decide, rfl, rfl, ?_, ?_, ?_, by decide, rfl, by decide, ?_⟩
+      · intro s hs
+        have : s = demoStrong := by simpa [demoRead] using hs.symm
+        subst this
+        exact ⟨⟨by decide, by decide, by decide, rfl, rfl⟩, rfl, by decide⟩
+      · simp [demoRead, demoExec, LinReadRun.at, idx_commit]
+      · exact ⟨rfl, by decide⟩
+      · simp [demoRead, demoExec]
+    · simp [hq] at hr
+  read_pos := by
+    intro q r hr j hj
+    by_cases hq : q = 1
+    · subst hq
+      simp only [List.length_singleton] at hj
+      have : j = 0 := by omega
+      subst this
+      simp [demoStrong, demoRead]
+    · simp [hq] at hr
+  read_wait := by
+    intro q r hr a ha _
+    simp [demoStrong, demoRead]
+  reads_nodup := by intro q; by_cases hq : q = 1 <;> simp [hq]
+  reads_sorted := by intro q; by_cases hq : q = 1 <;> simp [hq]
+  in_range := by
+    intro x hx
+    rcases hx with hx | ⟨q, hx⟩
+    · simp only [List.mem_singleton] at hx; subst hx; decide
+    · by_cases hq : q = 1
+      · simp [hq] at hx; subst hx; decide
+      · simp [hq] at hx
+  complete := by
+    intro i hi _
+    simp only [demoHistory, List.length_cons, List.length_nil] at hi
+    match i, hi with
+    | 0, _ => exact Or.inl (by simp)
+    | 1, _ => exact Or.inr ⟨1, by decide, by simp⟩
+  read_val := by
+    intro q r hr
+    by_cases hq : q = 1
+    · simp [hq] at hr; subst hr; subst hq
+      exact ⟨1, none, rfl, by decide⟩
+    · simp [hq] at hr
+  log_val := by
+    intro j hj k res hk
+    simp only [List.length_singleton] at hj
+    have : j = 0 := by omega
+    subst this
+    simp [demoHistory, opAt] at hk
+    obtain ⟨rfl, rfl⟩ := hk
+    decide
+  inv_lt_resp := by
+    intro i t ht
+    match i with
+    | 0 => simp [demoHistory, opAt] at ht ⊢; omega
+    | 1 => simp [demoHistory, opAt] at ht ⊢; omega
+    | i + 2 => simp [demoHistory, opAt] at ht
+
+example : Linearizable demoHistory :=
+  history_linearizable demoExec demoSem demoHistory demoModel
 
 end C02
